@@ -141,6 +141,14 @@ def gen_stream(r):
       ep['plan'][cid] = {'act': 'drop'}
     elif x < 0.4:
       ep['plan'][cid] = {'act': r.choice(['close', 'reset']), 'delay': r.choice([0, 2, 7])}
+  if r.random() < 0.2 and n_calls >= 2:
+    # a large body (>= 64 KiB) whose deadline passes while it is still queued behind the previous call's slow write
+    k = r.randrange(1, n_calls)
+    evs[k]['pad'] = 'p' * r.choice([65536, 70000])
+    evs[k]['at'] = evs[k - 1]['at']
+    evs[k]['timeout'] = r.choice([1, 1, 2, ep['send_delay']])
+    for j in range(k + 1, n_calls):
+      evs[j]['at'] = max(evs[j]['at'], evs[k]['at'])
   if r.random() < 0.15:
     evs.append({'at': r.randrange(0, t + 10), 'op': 'close'})
   spec = {'stack': 'mux', 'tie': r.choice(['fifo', 'lifo']), 'timeout': timeout, 'seed': r.randrange(1 << 30),
@@ -576,6 +584,13 @@ def py_split_stream(b):
   return frames, b[o:]
 
 
+def _must(c):
+  """Number of leading socket writes that have to be on the wire completely: up to the last write call that returned
+  normally while the peer was still connected (later ones were interrupted or fell on a dead connection)."""
+  ret = c.get('returned', [])
+  return max([i + 1 for i, r in enumerate(ret) if r] + [0])
+
+
 def _monitor_stream(case, obs):
   v = []
   for c in obs['conns']:
@@ -611,12 +626,11 @@ def _monitor_stream(case, obs):
     if not rest.startswith(tail):
       v.append(('stream-tail-garbled', '%s: %d trailing bytes are not the beginning of the next written frame' % (where, len(tail))))
       break
-    if not c['closed']:
-      # nothing may be lost on a live connection; a write still blocked when the run ends may be half delivered
-      missing = writes[len(frames):]
-      if len(missing) > 1:
-        v.append(('stream-frames-missing', '%s: %d written frames never reached the live peer' % (where, len(missing))))
-        break
+    must = _must(c)
+    if len(frames) < must:
+      v.append(('stream-frames-missing', '%s: write %d returned normally (peer still connected) but its frame never reached the peer '
+                'completely (%d complete frames arrived)' % (where, must - 1, len(frames))))
+      break
   return v
 
 
@@ -758,9 +772,7 @@ def to_coq(case, obs):
     for c in obs['conns']:
       if len(c['stream']) > 6000:
         continue          # evaluated by the Python reader only (size of the Coq literal)
-      # complete = live connection and every write finished (a write still blocked at the end of the run may be cut)
-      complete = (not c['closed']) and len(c['stream']) == sum(len(x) for x in c['writes'])
-      terms.append('CStream %s %s %s' % (C.lst([C.bytes_lit(x) for x in c['writes']]), C.bytes_lit(c['stream']), C.blit(complete)))
+      terms.append('CStream %s %s %s' % (C.lst([C.bytes_lit(x) for x in c['writes']]), C.bytes_lit(c['stream']), C.natlit(_must(c))))
     return terms
   exp_bytes = C.opt(C.bytes_lit(obs['bytes'])) if 'bytes' in obs else 'None'
   if k == 'header':
